@@ -229,6 +229,22 @@ func TestTwoHistories(t *testing.T) {
 				pre = append(pre, hist.Op{Kind: "delete", Method: m, Pattern: gen.Pick(t, fam, "hvictim")})
 			}
 		}
+		// one history in twelve (of those without another family) first grows a node beyond 50 children - where the edge
+		// search switches from a scan to a bisection - and only then hangs a parameter and a catch-all below it and writes
+		// through those two edges; the other router registers the same set in its own order
+		var wide []string
+		if len(pre) == 0 && gen.Chance(t, 1, 6, "widefamily") {
+			m := gen.Pick(t, methods, "wmethod")
+			body := hist.Op{Kind: "updates", End: "ok"}
+			for _, ch := range "0123456789ABCDEFGHIJKLMNOPQRSTUVWXYZabcdefghijklmnopq"[:gen.IntR(t, 51, 53, "wn")] {
+				body.Body = append(body.Body, hist.Op{Kind: "handle", Method: m, Pattern: "/w/" + string(ch)})
+			}
+			wide = []string{"/w/{pw}", "/w/*{cw}", "/w/{pw}/x", "/w/*{cw}/y"}
+			pre = append(pre, body)
+			for _, p := range wide {
+				pre = append(pre, hist.Op{Kind: "handle", Method: m, Pattern: p})
+			}
+		}
 		n := gen.IntR(t, 3, 40, "nops")
 		for i := 0; i < n+len(pre); i++ {
 			var op hist.Op
@@ -254,7 +270,7 @@ func TestTwoHistories(t *testing.T) {
 			c.Order = append(c.Order, gen.IntR(t, 0, 50, "rank"))
 		}
 		// probes: every surviving pattern and some removed ones, each as instantiated, slash-toggled and mutated
-		var srcs []string
+		srcs := append([]string(nil), wide...)
 		for _, k := range scratch.Model.Keys() {
 			srcs = append(srcs, k.P)
 		}
